@@ -472,11 +472,11 @@ pub fn run(args: &Args) {
         rep.finish();
         return;
     }
-    for k in 0..args.budget(3_200, 160_000) {
+    for k in 0..args.budget(3_200, 32_000) {
         service_case(&mut rep, args.case_seed(k));
     }
-    bytes_level(&mut rep, args, args.budget(160_000, 8_000_000));
-    for k in 0..args.budget(160_000, 8_000_000) {
+    bytes_level(&mut rep, args, args.budget(160_000, 1_600_000));
+    for k in 0..args.budget(160_000, 1_600_000) {
         header_case(&mut rep, args.case_seed(3_000_000_000 + k));
     }
     rep.finish();
